@@ -22,6 +22,9 @@ How Go maps to Lean here
 * reads are infallible apart from "not found" / "no tip" (what the SQL layer reports when no row matches);
   a write either executes (recorded in `writes`, applied to `store`) or — fault injection: `failIn = some k` lets the
   next `k` writes execute and makes the one after them return an error without executing. `failIn = none`: no fault.
+  That each write primitive is ONE atomic step with exactly these two behaviours is no longer an assumption: it is proved
+  of the regenerated repository / SQL write path for every fault schedule of the transactional monad BHS/Model/TxM.lean
+  (Props/RepoWritesGen.lean `RepoM_writes_simulated`; RepoM's one fault point per write = the calls begin / exec / commit).
 -/
 import BHS.Model.Chain
 
